@@ -11,19 +11,19 @@ func init() {
 			Edits: []edit{{rdbgo, "\trdb.writeMutex.Lock()\n\tdefer rdb.writeMutex.Unlock()\n\n\toldData, err := rdb.db.Get(rdb.readOptions, key)\n\tif err != nil {\n\t\treturn err\n\t}\n\n\treturn rdb.db.Put(", "\trdb.writeMutex.Lock()\n\toldData, err := rdb.db.Get(rdb.readOptions, key)\n\trdb.writeMutex.Unlock()\n\tif err != nil {\n\t\treturn err\n\t}\n\trdb.writeMutex.Lock()\n\tdefer rdb.writeMutex.Unlock()\n\n\treturn rdb.db.Put("}}},
 		variant{Name: "c07-batch-error-ignored", Props: []string{"C07"}, Expect: []string{"C07.errors|dnsdata/rdb.compileBatches"},
 			Edits: []edit{{comp, "\t\tif err := db.ExecuteBatch(rdbBatch); err != nil {\n\t\t\treturn nw, fmt.Errorf(\"error executing batch: %w\", err)\n\t\t}\n", "\t\t_ = db.ExecuteBatch(rdbBatch)\n"}}},
-		variant{Name: "c07-batch-goroutine-error-logged-only", Props: []string{"C07"}, Expect: []string{"C07.errors|dnsdata/rdb.compileBatches$2$1"},
-			Edits: []edit{{comp, "\t\t\t\t\tif err := db.ExecuteBatch(b); err != nil {\n\t\t\t\t\t\t<-limiter\n\t\t\t\t\t\treturn fmt.Errorf(\"error executing batch: %w\", err)\n\t\t\t\t\t}", "\t\t\t\t\tif err := db.ExecuteBatch(b); err != nil {\n\t\t\t\t\t\tlog.Printf(\"error executing batch: %v\", err)\n\t\t\t\t\t}"}}},
-		variant{Name: "c07-store-skips-empty-values", Props: []string{"C07"}, Expect: []string{"C07.nodrop|dnsdata/rdb.compileBatches$2|record-loop"},
+		variant{Name: "c07-batch-goroutine-error-logged-only", Props: []string{"C07"}, Expect: []string{"C07.errors|dnsdata/rdb.compileBatches$func:$func:"},
+			Edits: []edit{{comp, "\t\t\t\t\tif err := db.ExecuteBatch(b); err != nil {\n\t\t\t\t\t\treturn fmt.Errorf(\"error executing batch: %w\", err)\n\t\t\t\t\t}", "\t\t\t\t\tif err := db.ExecuteBatch(b); err != nil {\n\t\t\t\t\t\tlog.Printf(\"error executing batch: %v\", err)\n\t\t\t\t\t}"}}},
+		variant{Name: "c07-store-skips-empty-values", Props: []string{"C07"}, Expect: []string{"C07.nodrop|dnsdata/rdb.compileBatches$func:|record-loop"},
 			Edits: []edit{{comp, "\t\tfor _, m := range data {\n\t\t\trdbBatch.Add(m.Key, m.Value)\n", "\t\tfor _, m := range data {\n\t\t\tif len(m.Value) == 0 {\n\t\t\t\tcontinue\n\t\t\t}\n\t\t\trdbBatch.Add(m.Key, m.Value)\n"}}},
 		variant{Name: "c07-cdb-stops-at-first-duplicate", Props: []string{"C07"}, Expect: []string{"C07.nodrop|dnsdata/cdb.CreateCDBFromReader|record-loop"},
 			Edits: []edit{{"dnsdata/cdb/cdb.go", "\t\tfor _, m := range v {\n\t\t\terr := db.Put(m.Key, m.Value)", "\t\tfor i, m := range v {\n\t\t\tif i > 0 && bytes.Equal(m.Key, v[i-1].Key) && bytes.Equal(m.Value, v[i-1].Value) {\n\t\t\t\tcontinue\n\t\t\t}\n\t\t\terr := db.Put(m.Key, m.Value)"},
 				{"dnsdata/cdb/cdb.go", "import (\n", "import (\n\t\"bytes\"\n"}}},
-		variant{Name: "c07-batch-not-replaced-after-handoff", Props: []string{"C07"}, Expect: []string{"C07.batch-rebind|dnsdata/rdb.compileBatches$2"},
+		variant{Name: "c07-batch-not-replaced-after-handoff", Props: []string{"C07"}, Expect: []string{"C07.batch-rebind|dnsdata/rdb.compileBatches$func:"},
 			Edits: []edit{{comp, "\t\t\t\trdbBatch = db.CreateBatch()\n\t\t\t}\n\t\t}\n\t}", "\t\t\t}\n\t\t}\n\t}"}}},
 		variant{Name: "c07-features-before-parse", Props: []string{"C07"}, Expect: []string{"C07.tail|dnsdata.ParseStream|Rfeatures.MarshalMap-sent-once-after-parse"},
 			Edits: []edit{{parser, "\tdefer close(results)\n\n\terr := parse(\n\t\tr,\n\t\tfunc(line []byte) error {\n\t\t\tv, err := codec.ConvertLn(line)", "\tdefer close(results)\n\n\tif fv, ferr := codec.Features.MarshalMap(); ferr == nil {\n\t\tresults <- fv\n\t}\n\terr := parse(\n\t\tr,\n\t\tfunc(line []byte) error {\n\t\t\tv, err := codec.ConvertLn(line)"},
 				{parser, "\t// Pack the supported features\n\tv, err = codec.Features.MarshalMap()\n\tif err != nil {\n\t\treturn fmt.Errorf(\"features marshalling failed: %w\", err)\n\t}\n\tresults <- v\n", ""}}},
-		variant{Name: "c07-worker-error-swallowed", Props: []string{"C07"}, Expect: []string{"C07.errors|dnsdata.parse$1"},
+		variant{Name: "c07-worker-error-swallowed", Props: []string{"C07"}, Expect: []string{"C07.errors|dnsdata.parse$func:"},
 			Edits: []edit{{parser, "\t\t\t\tif err := process(line); err != nil {\n\t\t\t\t\treturn err\n\t\t\t\t}", "\t\t\t\tif err := process(line); err != nil {\n\t\t\t\t\tcontinue\n\t\t\t\t}"}}},
 		variant{Name: "c07-scanner-skips-long-lines", Props: []string{"C07"}, Expect: []string{"C07.nodrop|dnsdata.parse|scan-loop"},
 			Edits: []edit{{parser, "\t\t\tif len(line) < 2 || bytes.HasPrefix(line, []byte(\"#\")) {\n\t\t\t\tcontinue\n\t\t\t}", "\t\t\tif len(line) < 2 || bytes.HasPrefix(line, []byte(\"#\")) || len(line) > 4096 {\n\t\t\t\tcontinue\n\t\t\t}"}}},
@@ -49,5 +49,12 @@ func init() {
 			Edits: []edit{{rdbgo, "func (batch *Batch) getAffectedKeys() [][]byte {\n\tbatch.sort()\n", "func (batch *Batch) getAffectedKeys() [][]byte {\n"}}},
 		variant{Name: "benign-add-explicit-unlock-after-put", Props: []string{"C07", "C15"}, Benign: true,
 			Edits: []edit{{rdbgo, "\trdb.writeMutex.Lock()\n\tdefer rdb.writeMutex.Unlock()\n\n\toldData, err := rdb.db.Get(rdb.readOptions, key)\n\tif err != nil {\n\t\treturn err\n\t}\n\n\treturn rdb.db.Put(rdb.writeOptions, key, appendValues(oldData, [][]byte{value}))", "\trdb.writeMutex.Lock()\n\n\toldData, err := rdb.db.Get(rdb.readOptions, key)\n\tif err != nil {\n\t\trdb.writeMutex.Unlock()\n\t\treturn err\n\t}\n\n\terr = rdb.db.Put(rdb.writeOptions, key, appendValues(oldData, [][]byte{value}))\n\trdb.writeMutex.Unlock()\n\treturn err"}}},
+	)
+}
+
+func init() {
+	addVariants(
+		variant{Name: "c07-limiter-capacity-unchecked(F16)", Props: []string{"C07"}, Expect: []string{"C07.semaphore|dnsdata/rdb.compileBatches|semaphore-capacity-positive"},
+			Edits: []edit{{"dnsdata/rdb/rdb_compiler.go", "\tacquire, release := func() {}, func() {}\n\tif opts.BatchNumParallel > 0 {\n\t\tlimiter := make(chan struct{}, opts.BatchNumParallel)\n\t\tacquire = func() { limiter <- struct{}{} }\n\t\trelease = func() { <-limiter }\n\t}\n", "\tlimiter := make(chan struct{}, opts.BatchNumParallel)\n\tacquire := func() { limiter <- struct{}{} }\n\trelease := func() { <-limiter }\n"}}},
 	)
 }
